@@ -492,7 +492,7 @@ func runRandom(run *ev.Run, c int) {
 		purePRNG(run, tierN(run.Tier, 50000, 1000000))
 	}
 	w := newRandomWorkload()
-	r := rig.New(rig.Options{Seed: fmt.Sprintf("rnd-%d-%d", run.Seed, c), NumAccounts: 10, Balances: sdk.NewCoins(sdk.NewInt64Coin(rig.BondDenom, 10_000_000)), InflationOff: true, InitialHeight: boundaryHeight(c)})
+	r := rig.New(rig.Options{Seed: fmt.Sprintf("rnd-%d-%d", run.Seed, c), NumAccounts: 10, Balances: sdk.NewCoins(sdk.NewInt64Coin(rig.BondDenom, 10_000_000)), InflationOff: true, InitialHeight: boundaryHeight(c), SubSecond: c%2 == 1})
 	w.Attach(run, r)
 	r.Snapshot = func(ctx sdk.Context) any { return w.snapshot(ctx) }
 	blocks := tierN(run.Tier, 150, 500)
